@@ -134,6 +134,77 @@ fn run_case(name: &str, npingers: usize, progs: Vec<Vec<String>>, loop_ops: Vec<
     drop(leftovers);
 }
 
+/// Uncontrolled runs: `threads` threads, each holding one handle, run their programs at the same moment (spin
+/// barrier), `rounds` times over; afterwards the loop dispatches until nothing happens any more.  One line per round:
+/// how many callbacks ran, whether the source has left the loop.
+fn run_race(name: &str, progs: Vec<Vec<String>>, rounds: usize, out: &mut impl Write) {
+    writeln!(out, "case {}", name).unwrap();
+    let n = progs.len();
+    for round in 0..rounds {
+        let (ping, source) = make_ping().unwrap();
+        let mut el: EventLoop<'static, ()> = EventLoop::try_new().unwrap();
+        let cbs = Arc::new(AtomicUsize::new(0));
+        let c2 = cbs.clone();
+        let token = el
+            .handle()
+            .insert_source(source, move |(), _, _| {
+                c2.fetch_add(1, Ordering::SeqCst);
+            })
+            .map_err(|e| e.error)
+            .unwrap();
+        let gate = Arc::new(AtomicUsize::new(0));
+        let mut joins = Vec::new();
+        for prog in progs.iter().cloned() {
+            let mut handles = vec![ping.clone()];
+            let gate = gate.clone();
+            joins.push(std::thread::spawn(move || {
+                gate.fetch_add(1, Ordering::SeqCst);
+                while gate.load(Ordering::SeqCst) < n + 1 {
+                    std::hint::spin_loop();
+                }
+                for op in &prog {
+                    match op.as_str() {
+                        "ping" => {
+                            if let Some(h) = handles.last() {
+                                h.ping()
+                            }
+                        }
+                        "clone" => {
+                            if let Some(h) = handles.last().cloned() {
+                                handles.push(h)
+                            }
+                        }
+                        "drop" => drop(handles.pop()),
+                        _ => {}
+                    }
+                }
+                handles
+            }));
+        }
+        drop(ping);
+        while gate.load(Ordering::SeqCst) < n {
+            std::hint::spin_loop();
+        }
+        gate.fetch_add(1, Ordering::SeqCst); // go
+        let leftovers: Vec<Vec<Ping>> = joins.into_iter().map(|j| j.join().unwrap()).collect();
+        for _ in 0..4 {
+            el.dispatch(Some(Duration::from_millis(2)), &mut ()).unwrap();
+        }
+        let gone = el.handle().update(&token).is_err();
+        writeln!(
+            out,
+            "race {} cbs={} gone={} left={}",
+            round,
+            cbs.load(Ordering::SeqCst),
+            gone as u8,
+            leftovers.iter().map(|v| v.len()).sum::<usize>()
+        )
+        .unwrap();
+        drop(leftovers);
+    }
+    writeln!(out, "final").unwrap();
+}
+
 pub fn run() -> i32 {
     let stdin = std::io::stdin();
     let out = std::io::stdout();
@@ -174,6 +245,7 @@ pub fn run() -> i32 {
                 loop_ops = parse_prog(l.splitn(2, ':').nth(1).unwrap_or(""));
             }
             "sched" => schedule = w[1..].iter().filter_map(|x| x.parse().ok()).collect(),
+            "race" => run_race(&name, progs.clone(), w[1].parse().unwrap(), &mut out),
             "end" => run_case(&name, n, progs.clone(), loop_ops.clone(), schedule.clone(), &mut out),
             _ => {}
         }
